@@ -4,6 +4,7 @@ import (
 	"fmt"
 	"regexp"
 	"sort"
+	"strconv"
 	"strings"
 )
 
@@ -14,6 +15,8 @@ var (
 	reDartImport    = regexp.MustCompile(`import '(.*?)';`)
 	reDartClass     = regexp.MustCompile(`(?s)(?:abstract )?class (\w+)\s*(?:implements ([\w, ]+?))?\s*\{`)
 	reDartCtor      = regexp.MustCompile(`const (\w+)\((.*?)\);`)
+	reDart6FromKey  = regexp.MustCompile(`json\['((?:[^'\\]|\\.)*)'\]`)
+	reDart6ToKey    = regexp.MustCompile(`"((?:[^"\\]|\\.)*)"\s*:\s*(?:\w+ToJson\()?\s*item\.(\w+)`)
 	reDartEnumDecl  = regexp.MustCompile(`(?s)enum\s+(\w+) \{\s*(.*?)\s*\}`)
 	reDartTypedef   = regexp.MustCompile(`typedef (\w+) = (.*?);`)
 	reDartFunc      = regexp.MustCompile(`(?m)^\s*(?:[\w<>,? ]+?) (\w+(?:FromJson|ToJson|Label))\(`)
@@ -38,6 +41,9 @@ type dartClass struct {
 	Implements []string
 	CtorArgs   []string
 	File       string
+	FromKeys   []string    // the keys fromJson reads, in order
+	ToKeys     [][2]string // (key written by toJson, field of the item it writes)
+	HasJSON    bool        // the struct routines were found
 }
 
 type dartUnion struct {
@@ -110,6 +116,30 @@ func readDart(text string) *dartIR {
 						}
 					}
 					ir.Classes[i].CtorArgs = args
+				}
+			}
+		}
+		for i := range ir.Classes {
+			c := &ir.Classes[i]
+			if c.File != name || c.CtorArgs == nil {
+				continue // the abstract class of an union has no constructor and its own dispatch routines
+			}
+			// <Name> <id>FromJson(dynamic json_) { ... return <Name>( ... ); }   /   Map<String, dynamic> <id>ToJson(<Name> item) { return { ... }; }
+			if m := regexp.MustCompile(`(?s)\n\s*` + regexp.QuoteMeta(c.Name) + ` \w+FromJson\(dynamic json_\) \{(.*?)\n\s*\}\n`).FindStringSubmatch(body); m != nil {
+				c.HasJSON = true
+				c.FromKeys = []string{}
+				for _, k := range reDart6FromKey.FindAllStringSubmatch(m[1], -1) {
+					c.FromKeys = append(c.FromKeys, k[1])
+				}
+			}
+			if m := regexp.MustCompile(`(?s)Map<String, dynamic> \w+ToJson\(` + regexp.QuoteMeta(c.Name) + ` item\) \{\s*return \{(.*?)\};`).FindStringSubmatch(body); m != nil {
+				c.ToKeys = [][2]string{}
+				for _, k := range reDart6ToKey.FindAllStringSubmatch(m[1], -1) {
+					key, err := strconv.Unquote(`"` + k[1] + `"`)
+					if err != nil {
+						key = k[1]
+					}
+					c.ToKeys = append(c.ToKeys, [2]string{key, k[2]})
 				}
 			}
 		}
@@ -244,7 +274,12 @@ func runC06(e *env) {
 			files = append(files, fmt.Sprintf("{| df_name := %s; df_imports := %s; df_defs := %s; df_uses := %s |}", coqStr(f.Name), coqStrList(f.Imports), coqStrList(f.Defs), coqStrList(f.Uses)))
 		}
 		for _, c := range ir.Classes {
-			classes = append(classes, fmt.Sprintf("{| dc_name := %s; dc_implements := %s; dc_ctor := %s; dc_file := %s |}", coqStr(c.Name), coqStrList(c.Implements), coqStrList(c.CtorArgs), coqStr(c.File)))
+			var toItems []string
+			for _, kv := range c.ToKeys {
+				toItems = append(toItems, fmt.Sprintf("(%s, %s)", coqStr(kv[0]), coqStr(kv[1])))
+			}
+			classes = append(classes, fmt.Sprintf("{| dc_name := %s; dc_implements := %s; dc_ctor := %s; dc_file := %s; dc_has_json := %s; dc_from := %s; dc_to := %s |}",
+				coqStr(c.Name), coqStrList(c.Implements), coqStrList(c.CtorArgs), coqStr(c.File), coqBool(c.HasJSON), coqStrList(c.FromKeys), coqList(toItems)))
 		}
 		for _, u := range ir.Unions {
 			var to []string
@@ -281,6 +316,8 @@ func corpusDart() []*modSpec {
 	return []*modSpec{
 		mk("dart-packages", "", "package models\n\nimport (\n\t\"time\"\n\n\t\"example.com/org/models/sub\"\n)\n\ntype E int\n\nconst (\n\tE_first E = iota // the first\n\tE_second\n)\n\ntype S struct {\n\tA sub.T\n\tB []sub.T\n\tD time.Duration\n\tT time.Time\n\tE E\n\tL []int\n}\n", modFile{"sub/sub.go", "package sub\n\ntype T struct {\n\tX []int\n\tK Kind\n}\n\ntype Kind string\n\nconst (\n\tKa Kind = \"a\"\n\tKb Kind = \"b\"\n)\n"}),
 		mk("dart-shared-anonymous-type", "dart-anonymous-helper-in-two-files", "package models\n\nimport \"example.com/org/models/sub\"\n\ntype S struct {\n\tL []int\n\tT sub.T\n}\n", modFile{"sub/sub.go", "package sub\n\ntype T struct{ X []int }\n"}),
+		mk("dart-hidden-fields", "", "package models\n\ntype Account struct {\n\tID int\n\tLogin string `json:\"login\"`\n\tPassword string `json:\"-\"`\n\tAge int `json:\"age,omitempty\"`\n\tCache []int `gomacro:\"ignore\"`\n\tNotes map[string]string `json:\"notes\" gomacro:\"ignore\"`\n\tinternal int\n}\n\ntype Holder struct {\n\tA Account\n\tL []Account `json:\"-\"`\n}\n"),
+		mk("dart-key-not-an-identifier", "dart-json-key-not-a-dart-identifier", "package models\n\ntype Item struct {\n\tFullName string `json:\"full-name\"`\n\tDash string `json:\"-,\"`\n\tOk int `json:\"ok\"`\n}\n"),
 		mk("dart-enum-values", "", "package models\n\ntype E int\n\nconst (\n\tA E = 1\n\tB E = 2\n\tc E = 3\n\tD E = 2\n)\n\ntype F string\n\nconst (\n\tFa F = \"a\"\n\tFb F = \"b\"\n)\n\ntype Level int\n\nconst (\n\tLow Level = iota\n\tmedium\n\tHigh\n)\n\ntype Kind uint8\n\nconst (\n\tK0 Kind = iota\n\tK1\n\tnbKinds\n)\n\ntype S struct {\n\tE E\n\tF F\n\tL Level\n\tK Kind\n}\n"),
 		mk("dart-map-key-from-package", "", "package models\n\nimport \"example.com/org/models/sub\"\n\ntype S struct {\n\tByColor map[sub.Color]string\n\tById map[sub.ID][]int\n}\n", modFile{"sub/sub.go", "package sub\n\ntype Color int\n\nconst (\n\tRed Color = iota\n\tGreen\n)\n\ntype ID int64\n"}),
 		mk("dart-union-member-names", "", "package models\n\ntype Shape interface{ isShape() }\n\ntype Circle struct{ R int }\ntype square struct{ Side int }\ntype hTTPShape struct{ U string }\ntype N int\n\nfunc (Circle) isShape() {}\nfunc (square) isShape() {}\nfunc (hTTPShape) isShape() {}\nfunc (N) isShape() {}\n\ntype Drawing struct {\n\tMain Shape\n\tAll []Shape\n}\n"),
